@@ -36,4 +36,9 @@ def dateDiffDays (a : Int × Int × Int) (b : Option (Int × Int × Int)) : ℚ 
   | some b => ((dateDays a - dateDays b : ℤ) : ℚ)
   | none => 0
 
+/-- Python `min(a, b)`: `b if b < a else a` -/
+def pmin (a b : ℚ) : ℚ := if b < a then b else a
+/-- Python `max(a, b)`: `b if b > a else a` -/
+def pmax (a b : ℚ) : ℚ := if b > a then b else a
+
 end PyQ
